@@ -124,3 +124,13 @@ Definition spec_err_sq (xs ss : list Q) (ops : list sel) : Q :=
   | Some UsePerr => t_perr_sq ss
   | _ => t_eom_sq xs
   end.
+
+(** the constructor's validation of individual uncertainties: one per reading, none negative
+    (RepeatedlyMeasuredValue.__init__ / _get_error_array_helper raise ValueError otherwise) *)
+Definition rmv_make (xs ss : list Q) : option rmv :=
+  if Nat.eqb (length xs) (length ss) && forallb (fun e => Qle_bool 0 e) ss then Some (rmv_new xs ss) else None.
+
+(** what a later first-order propagation d = k * a + c reads off the object: value k * value + c and
+    (uncertainty)^2 = k^2 * uncertainty^2 *)
+Definition lin_value (k c : Q) (r : rmv) : Q := k * r_value r + c.
+Definition lin_err_sq (k : Q) (r : rmv) : Q := k * k * r_err_sq r.
